@@ -47,10 +47,16 @@ class AioBackend(real.RealBackend):
 
     def call(self, parent, child):
         fut = self.callers[child.tmpl](child)
-        if not asyncio.iscoroutine(fut):
-            self.viol("C15", "redirect", ".asynq() inside asyncio mode returned %s, not a coroutine" % type(fut).__name__)
+        import inspect
+        if not inspect.isawaitable(fut):
+            self.viol("C15", "redirect", ".asynq() inside asyncio mode returned %s, not an awaitable" % type(fut).__name__)
             return fut
         self.insts[child.token] = child
+        if self.spec.get("raw_awaitables"):
+            # hand asynq exactly what .asynq() returned (a coroutine, or the Task of an explicit
+            # asyncio_fn); no completion tracking for these leaves
+            self.probes["raw_awaitable_yielded"] += 1
+            return fut
         t = self._track(child, fut)
         self.coro_inst[id(t)] = (child, t)
         return t
@@ -161,8 +167,14 @@ class C15(object):
                 if t["kind"] == "aiofn":
                     t["delay_ms"] = rng.randint(0, 30)
                     t["aio_raises"] = rng.random() < 0.25
+                    t["aio_returns_task"] = rng.random() < 0.4
                     t["steps"] = [["raise", "aio%d" % rng.randint(0, 9)]] if t["aio_raises"] else [["ret", "const"]]
+                elif rng.random() < 0.08 and t["steps"] and t["steps"][-1][0] not in ("ret", "res"):
+                    # a task whose value is an exception instance (returned, not raised)
+                    t["steps"].append([rng.choice(["ret", "res"]), "excval"])
             spec["root"]["conv"] = "call"
+            if rng.random() < 0.4:
+                spec["raw_awaitables"] = True
             comps.append({"spec": spec, "offset_ms": rng.randint(0, 20)})
         return {"computations": comps}
 
@@ -319,7 +331,14 @@ class C15(object):
                         inst.n += 1
                         raise e
                     return prog.task_value(inst, "const")
-                fn = A.asynq(asyncio_fn=afn)(gen_body)
+                if t.get("aio_returns_task"):
+                    # the explicit asyncio_fn hands back an asyncio Task (an awaitable that is not
+                    # a coroutine) instead of being a coroutine function
+                    def afn_task(inst, afn=afn):
+                        return asyncio.ensure_future(afn(inst))
+                    fn = A.asynq(asyncio_fn=afn_task)(gen_body)
+                else:
+                    fn = A.asynq(asyncio_fn=afn)(gen_body)
                 B.callers[idx] = fn.asynq
                 B.synccallers[idx] = fn
                 aio_root.append(fn.asyncio)
